@@ -130,3 +130,100 @@ Proof. intros Hfo Hc HI. unfold scramble_poison. rewrite Hfo. unfold pooled_pois
   - left. clear - Hz. unfold isum. induction I as [|i I IH]; [reflexivity|]. cbn [forallb fold_right] in *.
     apply andb_true_iff in Hz as [Hi Hz]. apply Nat.eqb_eq in Hi. subst i. rewrite IH by assumption. reflexivity.
   - right. apply idx_eqb_spec in Hl. rewrite Hl. reflexivity. Qed.
+
+(** * Large sample sizes: the evaluation used by the large correspondence cases is the model's evaluation
+    (Model/PopOpsCheck.v: rows of Pascal's triangle instead of the literal Pascal recursion of [binomZ], the totals of the
+    masked entries listed once instead of one scan per entry).  For every case the fast check returns what the check
+    on the model returns. *)
+From Coq Require Import QArith.
+From Dadi Require Import Base.NumQ Model.PopOpsCheck.
+
+(** ** the fast evaluation used for the large correspondence cases is the model's evaluation *)
+Lemma nth_pascal_next : forall r p k,
+  nth k (pascal_next p r) 0%Z = ((match k with O => p | S k' => nth k' r 0%Z end) + nth k r 0%Z)%Z.
+Proof. induction r as [|x t IH]; intros p k.
+  - destruct k as [|[|k]]; simpl; lia.
+  - destruct k as [|k]; simpl; [reflexivity|]. rewrite IH. destruct k; reflexivity. Qed.
+
+Lemma binomZ_n0 n : binomZ n 0 = 1%Z.
+Proof. destruct n; reflexivity. Qed.
+
+Theorem binomZ_fast_correct : forall n k, binomZ_fast n k = binomZ n k.
+Proof. unfold binomZ_fast. induction n as [|n IH]; intros k.
+  - destruct k as [|[|k]]; reflexivity.
+  - cbn [pascal_row]. rewrite nth_pascal_next. destruct k as [|k].
+    + rewrite IH, binomZ_n0. reflexivity.
+    + rewrite !IH. reflexivity. Qed.
+
+Lemma deal_rows_correct : forall (shape : list nat) (c : idx),
+  map (fun p : list Z * nat => nth (snd p) (fst p) 0%Z) (combine (map (fun x => pascal_row (pred x)) shape) c)
+  = map (fun p : nat * nat => binomZ (pred (fst p)) (snd p)) (combine shape c).
+Proof. induction shape as [|s t IH]; intros [|i c]; try reflexivity.
+  cbn [map combine fst snd]. rewrite IH. f_equal. apply binomZ_fast_correct. Qed.
+
+Lemma deal_prob_rows_correct (s : list nat) (c : idx) :
+  deal_prob_rows (map (fun x => pascal_row (pred x)) s) (pascal_row (nsamp s)) c = deal_prob s c.
+Proof. unfold deal_prob_rows, deal_prob. rewrite deal_rows_correct.
+  change (nth (isum c) (pascal_row (nsamp s)) 0%Z) with (binomZ_fast (nsamp s) (isum c)).
+  rewrite binomZ_fast_correct. reflexivity. Qed.
+
+(** same spectrum up to the representation of the value and mask functions *)
+Definition spec_ext (r r' : spec Q) : Prop :=
+  sh r = sh r' /\ ids r = ids r' /\ fo r = fo r' /\ (forall I, mk r I = mk r' I) /\ (forall I, va r I = va r' I).
+
+Lemma spec_ext_refl r : spec_ext r r.
+Proof. repeat split. Qed.
+
+Lemma scramble_unfolded_fast_ext mc a : spec_ext (scramble_unfolded_fast mc a) (scramble_unfolded mc a).
+Proof. unfold scramble_unfolded_fast, scramble_unfolded, spec_ext. cbn [sh ids fo mk va].
+  repeat split. intros I. rewrite deal_prob_rows_correct. reflexivity. Qed.
+
+Lemma fold_ext r r' : spec_ext r r' -> spec_ext (fold r) (fold r').
+Proof. intros (E1 & E2 & E3 & E4 & E5). unfold fold, spec_ext. cbn [sh ids fo mk va]. rewrite E1.
+  repeat split; try assumption.
+  - intros I. rewrite !E4. reflexivity.
+  - intros I. rewrite !E5. reflexivity. Qed.
+
+Lemma scramble_pop_ids_fast_ext mc a : spec_ext (scramble_pop_ids_fast mc a) (scramble_pop_ids mc a).
+Proof. unfold scramble_pop_ids_fast, scramble_pop_ids. destruct (fo a).
+  - apply fold_ext, scramble_unfolded_fast_ext.
+  - apply scramble_unfolded_fast_ext. Qed.
+
+Definition opt_ext (x y : option (spec Q)) : Prop :=
+  match x, y with Some r, Some r' => spec_ext r r' | None, None => True | _, _ => False end.
+
+Lemma run_op_fast_ext o a : opt_ext (run_op_fast o a) (run_op o a).
+Proof. destruct o; cbn [run_op_fast]; try (destruct (run_op _ a); cbn; [apply spec_ext_refl|exact I]).
+  cbn. apply scramble_pop_ids_fast_ext. Qed.
+
+(** the totals of the masked entries, listed once *)
+Lemma poison_scan (m : idx -> bool) t : forall l : list idx,
+  existsb (fun I => m I && Nat.eqb (isum I) t) l
+  = memb t (map (fun p : idx * bool => isum (fst p)) (filter (fun p => snd p) (combine l (map m l)))).
+Proof. induction l as [|x l IH]; [reflexivity|]. cbn [existsb map combine filter snd]. rewrite IH.
+  destruct (m x); cbn [andb orb]; [|reflexivity]. cbn [map fst memb existsb]. rewrite (Nat.eqb_sym t). reflexivity. Qed.
+
+Lemma pooled_poison_fast (a : spec Q) t : memb t (poison_totals a) = pooled_poison a t.
+Proof. unfold poison_totals, pooled_poison, flat_mask. symmetry. apply poison_scan. Qed.
+
+Lemma scramble_poison_fast_correct (a : spec Q) c : scramble_poison_fast a c = scramble_poison a c.
+Proof. unfold scramble_poison_fast, scramble_poison. destruct (fo a); cbv zeta; rewrite ?pooled_poison_fast; reflexivity. Qed.
+
+Lemma poison_of_fast_correct o a c : poison_of_fast o a c = poison_of o a c.
+Proof. destruct o; try reflexivity. apply scramble_poison_fast_correct. Qed.
+
+Lemma pcheck_body_ext tol c po po' x y :
+  (forall I, po I = po' I) -> opt_ext x y -> pcheck_body tol c po x = pcheck_body tol c po' y.
+Proof. intros Hp H. destruct x as [r|], y as [r'|]; cbn in H; try contradiction; [|reflexivity].
+  destruct H as (E1 & E2 & E3 & E4 & E5). unfold pcheck_body, flat_mask, flat_values. rewrite E1, E2, E3.
+  rewrite (map_ext _ _ E4), (map_ext _ _ E5), (map_ext _ _ Hp). reflexivity. Qed.
+
+Lemma ptotal_body_ext a x y : opt_ext x y -> ptotal_body a x = ptotal_body a y.
+Proof. intros H. destruct x as [r|], y as [r'|]; cbn in H; try contradiction; [|reflexivity].
+  destruct H as (E1 & _ & _ & _ & E5). unfold ptotal_body, total. rewrite E1, (map_ext _ _ E5). reflexivity. Qed.
+
+Theorem pcheck_full_fast_correct tol c : pcheck_full_fast tol c = pcheck_full tol c.
+Proof. unfold pcheck_full_fast, pcheck_full, pcheck_fast, pcheck, ptotal_check_fast, ptotal_check. cbv zeta.
+  rewrite (pcheck_body_ext tol c _ (poison_of (pc_op c) (pcase_input c)) _ (run_op (pc_op c) (pcase_input c))
+             (poison_of_fast_correct _ _) (run_op_fast_ext _ _)).
+  rewrite (ptotal_body_ext _ _ _ (run_op_fast_ext (ptotal_op c) (ptotal_input c))). reflexivity. Qed.
